@@ -5,3 +5,4 @@ import AdaptiveProofs.Props.C14
 import AdaptiveProofs.Props.C17
 import AdaptiveProofs.Props.C18
 import AdaptiveProofs.Props.C19
+import AdaptiveProofs.Props.C16
